@@ -680,10 +680,13 @@ def run_property(modname, tier, seed, nshards=None, collect=False):
         if budgets:
             from . import cgf
             f, err, info = cgf.campaign(mod, seed, os.environ.get("VERIF_OVERLAY", ""), budgets, workers=nshards)
-            if err:
-                sys.stderr.write("HARNESS ERROR (coverage-guided campaign): %s\n" % err)
-                return 2
             cgf_stats = info.get("stats", info)
+            if err:
+                # a worker of the add-on stage that ran out of memory / time or died is a budget or tooling matter:
+                # the campaign is inconclusive (recorded in the evidence), the verdict rests on the stages that completed
+                sys.stderr.write("note: coverage-guided campaign inconclusive: %s\n" % err[-1500:])
+                if isinstance(cgf_stats, dict):
+                    cgf_stats["inconclusive"] = err[-600:]
             if info.get("recs"):
                 m2 = merge(results + info["recs"])
                 m2["corpus_replayed"] = n_corpus
